@@ -481,6 +481,10 @@ OutcomeDocumented == \A p \in Procs : outcome[p] \in {"run", "ok", "timeout", "e
 \* C10 / C09: a table that exists (initially, or by a committed CREATE) is present at every instant
 Durable == \A f \in durable : data[f].exists
 
+\* C10: whatever happens (crashes included) a durable table holds a complete version that some
+\* commit installed: the old one or the new one
+CrashLeavesOldOrNew == \A f \in durable : data[f].exists /\ data[f].ver = commits[f]
+
 AllDone == \A p \in Procs : pc[p].pt \in {"exited", "crashed"}
 Termination == <>AllDone
 
@@ -494,5 +498,5 @@ QuiescentClean ==
 \* before the first Handler.commit of that COMMIT)
 DirOf(f) == [lock |-> lockf[f] # NoProc, nrlock |-> Cardinality(rlockf[f]), temp |-> tempf[f] # NoProc,
              exists |-> data[f].exists,
-             ver |-> IF ~data[f].exists THEN -1 ELSE IF \E p \in Procs : f \in made[p] /\ pc[p].k # "c" THEN -3 ELSE data[f].ver]
+             ver |-> IF ~data[f].exists THEN -1 ELSE IF f \notin durable /\ (\E p \in Procs : f \in made[p] /\ pc[p].k # "c") THEN -3 ELSE data[f].ver]
 =============================================================================
